@@ -2,7 +2,7 @@
 import itertools
 import random
 
-from .prog import (IllTyped, align, binary, cat, depth, einsum, getitem, getitem_at, getslice, independent, lambda_, leaf, num,
+from .prog import (IllTyped, align, binary, cat, constant, depth, einsum, getitem, getitem_at, getslice, independent, lambda_, leaf, num,
                    outreduce, reduce_, reshape, show, slice_, stack, subs, type_of, unary, var)
 
 SIZES = {"i": 2, "j": 3, "k": 2, "l": 1, "m": 4}
@@ -174,6 +174,9 @@ def wrappers(theme, e, rng=None, full=True):
         yield cat("c", (e, subs(e, ((k, slice_(k, 0, max(1, n - 1), 1, n)),))), k)
     if names:
         yield align(e, tuple(reversed(names)))
+    if e[0] != "constant":
+        yield constant((("cz", 2),), e)
+        yield constant((("cz", 2), ("cy", 3)), e)
 
 
 def _leaf_idx(name, names, n):
